@@ -327,6 +327,12 @@ class SeriesVal:
     def dropna(self):
         return self.derive(sel=lambda i: z3.And(self._sel(i), z3.Not(self.null(i))), null=lambda i: z3.BoolVal(False))
 
+    def rename(self, index=None, **kw):
+        """Series.rename(name): the same values under another name (a scalar / None argument; relabelling the index is not modelled)"""
+        if kw or callable(index) or isinstance(index, dict):
+            raise Unsupported("Series.rename with a mapping / function")
+        return self.derive(name=index)
+
     def pyvc_setitem(self, I, k, v):
         """series[label] = value: an in-place write of one element (the series stays a series)"""
         self.mutations.append(("setitem", k))
@@ -1060,6 +1066,7 @@ class FrameVal:
 
         f = cls(space, col, has, name=name)
         f.pre = pre
+        f.known_columns = list(columns) if columns is not None else None
         cur().ghost.setdefault("data_objects", []).append(f)
         return f
 
@@ -1123,7 +1130,16 @@ class FrameVal:
         f = FrameVal(self.space, self.col_fn, self.has_col, sel or self._sel, self.name)
         f.overrides = dict(self.overrides)
         f.index_override = self.index_override
+        f.known_columns = getattr(self, "known_columns", None)
         return f
+
+    @property
+    def shape(self):
+        """(rows, columns): only for a frame whose columns the contract fixed"""
+        kc = getattr(self, "known_columns", None)
+        if kc is None:
+            raise Unsupported("DataFrame.shape of a frame with unknown columns")
+        return (view_len(self), len(kc))
 
     def pyvc_contains(self, I, x):
         return self.has_col(x)
